@@ -351,7 +351,7 @@ fn make_abbreviated_namespace(namespace: &str, existing_namespaces: &[Rc<Namespa
         namespace.chars().filter(|c| c.is_alphanumeric()).take(3).collect()
     }
 
-    let mut append: Option<u8> = None;
+    let mut append: Option<u32> = None;
 
     // a trailing slash leaves an empty last segment: take the last one that has a name in it
     let abbreviation = if let Some(last_segment) = namespace.split('/').rfind(|s| !s.is_empty()) {
@@ -383,12 +383,11 @@ fn make_abbreviated_namespace(namespace: &str, existing_namespaces: &[Rc<Namespa
             return use_abbreviation;
         }
 
+        // one of the first `existing_namespaces.len() + 1` candidates is free
         append = match append {
             None => Some(1),
             Some(n) => Some(n + 1),
         };
-
-        assert_ne!(append, Some(255), "Too many namespaces with the same abbreviation");
     }
 }
 
